@@ -313,6 +313,7 @@ type Contract struct {
 	HasMod     bool
 	Loops      map[int]*LoopSpec
 	Asserts    []AssertSpec
+	Assumes    []AssertSpec
 	Lets       []LetSpec
 	Trusted    string
 	Inline     bool
@@ -350,7 +351,7 @@ type ContractFile struct {
 var clauseKeywords = map[string]bool{
 	"spec": true, "axiom": true, "devirt": true, "opaque": true, "func": true, "property": true, "returns": true,
 	"config": true, "requires": true, "ensures": true, "modifies": true, "loop": true, "assert": true,
-	"trusted": true, "inline": true, "let": true, "lemma": true, "step": true, "allocates": true,
+	"trusted": true, "inline": true, "let": true, "lemma": true, "step": true, "allocates": true, "assume": true,
 }
 
 func parseContractFile(path, pkgPath string) (*ContractFile, error) {
@@ -570,6 +571,18 @@ func parseContractFile(path, pkgPath string) (*ContractFile, error) {
 				default:
 					return nil, fmt.Errorf("%s:%d: unknown loop clause %q", path, rc.line, f[1])
 				}
+			case "assume":
+				// assume at call <external callee> : expr   (about results of a call that is not followed; listed as an assumption)
+				t := strings.TrimSpace(strings.TrimPrefix(rc.text, "at"))
+				k := strings.Index(t, ":")
+				if k < 0 {
+					return nil, fmt.Errorf("%s:%d: assume at call NAME : expr", path, rc.line)
+				}
+				c, err := mkClause("assume", strings.TrimSpace(t[k+1:]), rc.line)
+				if err != nil {
+					return nil, err
+				}
+				cur.Assumes = append(cur.Assumes, AssertSpec{strings.TrimSpace(t[:k]), c})
 			case "assert":
 				// assert at <anchor> : expr
 				t := strings.TrimSpace(strings.TrimPrefix(rc.text, "at"))
